@@ -496,7 +496,9 @@ def gen_if(g, env, depth, nstmts):
     nbr = g.i(1, 3)
     branches = []
     for _ in range(nbr):
-        branches.append([log_expr(g, env, 2), gen_body(g, env, depth + 1, max(1, nstmts // 2))])
+        cond = log_expr(g, env, 2)
+        empty = g.p.get('empty_branches', True) and g.chance(8)
+        branches.append([cond, [] if empty else gen_body(g, env, depth + 1, max(1, nstmts // 2))])
     els = gen_body(g, env, depth + 1, max(1, nstmts // 2)) if g.chance(50) else None
     return ['if', branches, els]
 
@@ -522,7 +524,9 @@ def gen_select(g, env, depth, nstmts):
                 used.add(v)
                 items.append(lit(v))
         if items:
-            cases.append([items, gen_body(g, env, depth + 1, max(1, nstmts // 2))])
+            # (an empty CASE body is valid Fortran; backends/transformers must keep the branch in place)
+            empty = g.p.get('empty_branches', True) and g.chance(25)
+            cases.append([items, [] if empty else gen_body(g, env, depth + 1, max(1, nstmts // 2))])
     if not cases:
         cases.append([[lit(min(set(range(-3, 12)) - used))], gen_body(g, env, depth + 1, 1)])
     default = gen_body(g, env, depth + 1, 1) if g.chance(60) else None
@@ -563,9 +567,10 @@ def gen_where(g, env):
     mask = mask_expr(g, env, n, extents, 1)
     if g.chance(30):
         return ['where1', mask, one_assign()]
-    blocks = [[mask, [one_assign() for _ in range(g.i(1, 2))]]]
+    lo_n = 0 if g.p.get('empty_branches', True) and g.chance(15) else 1
+    blocks = [[mask, [one_assign() for _ in range(g.i(lo_n, 2))]]]
     if g.chance(40):
-        blocks.append([mask_expr(g, env, n, extents, 0), [one_assign()]])
+        blocks.append([mask_expr(g, env, n, extents, 0), [one_assign()] if not (lo_n == 0 and g.chance(30)) else []])
     if g.chance(50):
         blocks.append([None, [one_assign()]])
     return ['where', blocks]
